@@ -377,6 +377,8 @@ struct St {
     diverged: bool,
     stuck: bool,
     spin_resets: u32,
+    /// a bypass of a sleeping holder or a spin descheduling happened: the enabled sets then depend on timing
+    timing: bool,
     last_kind: Vec<Option<Kind>>,
     grants: Vec<(usize, Kind)>,
 }
@@ -395,6 +397,8 @@ pub struct Exec {
     pub abandoned: bool,
     /// no thread could be scheduled although not all were done (every remaining thread asleep or spinning)
     pub stuck: bool,
+    /// a sleeping baton holder was bypassed or a spinner descheduled: enabled sets may depend on timing
+    pub timing: bool,
 }
 
 const SPIN_LIMIT: u32 = 400;
@@ -531,6 +535,7 @@ impl Sched {
                 st.streak[tid] += 1;
                 if st.streak[tid] > SPIN_LIMIT {
                     st.spinning[tid] = true;
+                    st.timing = true;
                 }
             }
         }
@@ -591,6 +596,7 @@ impl Sched {
                 last_grants = st.grants.len();
                 if sleepy >= 3 {
                     sleepy = 0;
+                    st.timing = true;
                     st.blocked[h] = true;
                     st.current = None;
                     st.last_running = None;
@@ -614,7 +620,7 @@ impl Sched {
     }
     pub fn into_exec(&self, abandoned: bool) -> Exec {
         let st = self.m.lock().unwrap_or_else(|e| e.into_inner());
-        Exec { choices: st.choices.clone(), points: st.points.clone(), grants: st.grants.clone(), diverged: st.diverged, abandoned: abandoned || (st.free_run && !st.diverged), stuck: st.stuck }
+        Exec { choices: st.choices.clone(), points: st.points.clone(), grants: st.grants.clone(), diverged: st.diverged, abandoned: abandoned || (st.free_run && !st.diverged), stuck: st.stuck, timing: st.timing }
     }
 }
 
@@ -631,13 +637,15 @@ pub struct ExploreStats {
     pub mem_points: u64,
     pub abandoned: u64,
     pub stuck: u64,
+    pub timing_divergences: u64,
     pub capped: bool,
     pub max_preemptions: usize,
 }
 
 pub fn explore(bound: usize, cap: u64, wall: std::time::Duration, run: &mut dyn FnMut(&[usize]) -> Result<Exec, String>) -> Result<ExploreStats, String> {
-    let mut stats = ExploreStats { executions: 0, choice_points: 0, mem_points: 0, abandoned: 0, stuck: 0, capped: false, max_preemptions: 0 };
+    let mut stats = ExploreStats { executions: 0, choice_points: 0, mem_points: 0, abandoned: 0, stuck: 0, timing_divergences: 0, capped: false, max_preemptions: 0 };
     let mut stack: Vec<Vec<usize>> = vec![Vec::new()];
+    let mut timing_seen = false;
     let t0 = std::time::Instant::now();
     while let Some(prefix) = stack.pop() {
         if stats.executions >= cap || t0.elapsed() > wall {
@@ -646,6 +654,19 @@ pub fn explore(bound: usize, cap: u64, wall: std::time::Duration, run: &mut dyn 
         }
         let x = run(&prefix)?;
         stats.executions += 1;
+        timing_seen |= x.timing;
+        let misfit = x.diverged || (!x.abandoned && (x.choices.len() < prefix.len() || x.choices[..prefix.len()] != prefix[..]));
+        if misfit && timing_seen {
+            // blocking inside the subject (locks): which threads are enabled then depends on when a sleeper wakes up;
+            // such a schedule is not replayable and is counted, not believed
+            stats.abandoned += 1;
+            stats.timing_divergences += 1;
+            if stats.abandoned >= 8 {
+                stats.capped = true;
+                break;
+            }
+            continue;
+        }
         if x.diverged {
             return Err(format!("replay divergence: the recorded prefix {:?} does not fit the execution (choices made {:?})", prefix, x.choices));
         }
